@@ -139,9 +139,14 @@ func (d *driver) commitEvent(w emitter, k int, cls string, s *sparse, withMS boo
 	cfg := getConf()
 	v := s.dense()
 	before := append([]fr.Element(nil), v...)
-	c := cfg.Commit(v)
+	var g tailGuard
+	var ssent fr.Element
+	ssent.SetUint64(0xdecaf)
+	gv := guardSlice(&g, v, ssent)
+	c := cfg.Commit(gv)
+	copy(v, gv)
 	idx, vals := s.json()
-	e := ev{"ev": "commit", "k": k, "cls": cls, "n": s.n, "idx": idx, "vals": vals, "out": coords(&c)}
+	e := ev{"ev": "commit", "k": k, "cls": cls, "n": s.n, "idx": idx, "vals": vals, "out": coords(&c), "tails_unchanged": g.ok()}
 	same := true
 	for i := range v {
 		if v[i] != before[i] {
